@@ -107,3 +107,14 @@ class Recorder:
                "violation_counts": dict(self._per_key)}
         out.update(extra)
         return out
+
+
+def rot_frame(X, salt=0):
+    """The data as a DataFrame whose ROW LABELS rotate (deterministically in `salt` and the shape) over default / shifted / strided integer labels and
+    dates: every output of a detector is positional, so the labels must make no difference (several seeded changes looked labels up instead)."""
+    import pandas as pd
+    X = np.asarray(X)
+    n = X.shape[0]
+    kind = (int(salt) + n + (X.shape[1] if X.ndim > 1 else 1)) % 4
+    index = [None, pd.RangeIndex(300, 300 + n), pd.RangeIndex(0, 3 * n, 3), pd.date_range("2021-03-01", periods=n, freq="D")][kind]
+    return pd.DataFrame(X, index=index)
